@@ -114,6 +114,13 @@ RAW_QUOTE = re.compile(rb'(?<!\\)"')
 NON_PRINTABLE = re.compile(rb"[^\x20-\x7e]")
 
 
+_HAS_LETTER = re.compile(rb"[A-Za-z]")
+
+
+def _sizeclass(n):
+    return "1K-4K" if n < 4096 else "4K-16K" if n < 16384 else "16K-64K" if n < 65536 else "64K-1M" if n < (1 << 20) else ">=1MiB"
+
+
 def unescape_controls(s):
     def rep(m):
         g = m.group(1)
@@ -135,6 +142,7 @@ SYMS_SHORT = bytes([0x41, 0x51, 0x3D, 0x21])
 CORRUPT = [0x41, 0x51, 0x7A, 0x30, 0x39, 0x2B, 0x2F, 0x2D, 0x5F, 0x3D, 0x21, 0x20, 0x0A, 0x2E, 0x7E, 0x00, 0x7F, 0x80,
            0xC3, 0xFF]                                                               # 20 replacement characters
 ESC_SPECIAL = b"%\\\"'/ \t\n\r\x7f\x80\xff\x00\x1f\x20\x7e+&=~.-_xX09AFaf?#:@\x0b\x0c\x07\x08\xc3\xa9"
+_ALL_ESCAPED = bytes(c for c in range(256) if (c < 0x20 and c not in (7, 8, 9, 10, 11, 12, 13)) or c >= 0x7F)
 HOSTS = [b"a", b"h" * 255, b"example.com", b"my-host.sub-domain.example.org", b"h\xc3\xb6st.\xff\x80.example",
          b"1.2.3.4", b"-", b"[", b"host 80", b"8080"]
 
@@ -153,6 +161,84 @@ def _rand_bytes(r, n, style):
     if style == 1:   # sextets 62/63 and 0 are frequent: bytes F8..FF, 00, 3E/3F/BF
         return bytes(r.choice((0xFB, 0xFF, 0xFE, 0xEF, 0xBF, 0xF8, 0x00, 0x3F, 0x3E, 0xFC)) for _ in range(n))
     return bytes(r.choice(ESC_SPECIAL) if r.random() < 0.7 else r.getrandbits(8) for _ in range(n))
+
+
+def ladder_sizes(tier):
+    """Sizes around every power of two and every 3*2^k up to 1 MiB (+-2; above 64 KiB only +-1 in the quick tier)."""
+    quick = tier == "quick"
+    sizes = set()
+    for k in range(3, 21):
+        w = 1 if (quick and k > 16) else 2
+        sizes.update(2 ** k + d for d in range(-w, w + 1))
+    for k in range(2, 19):
+        w = 1 if (quick and 3 * 2 ** k > 65536) else 2
+        sizes.update(3 * 2 ** k + d for d in range(-w, w + 1))
+    sizes.update((12286, 12290, (1 << 20) + 1))
+    return sorted(sizes)
+
+
+def _ladder_bytes(r, n, style):
+    """style: uniform | sextet (base64 62/63-heavy) | verbatim (nothing to escape) | escaped (every byte needs \\xHH / %HH) |
+    mixed (special-heavy) | sparse (2% special characters)"""
+    if style == "uniform":
+        return r.randbytes(n)
+    if style == "sextet":
+        return bytes(r.choices((0xFB, 0xFF, 0xFE, 0xEF, 0xBF, 0xF8, 0x00, 0x3F, 0x3E, 0xFC), k=n))
+    if style == "verbatim":
+        return bytes(r.choices(b"abcdefghijklmnopqrstuvwxyzABCDEFGHIJKLMNOPQRSTUVWXYZ0123456789", k=n))
+    if style == "escaped":
+        return bytes(r.choices(_ALL_ESCAPED, k=n))
+    if style == "mixed":
+        return bytes(r.choices(ESC_SPECIAL + b"abcXYZ019", k=n))
+    plain = r.choices(b"abcdefghijklmnopqrstuvwxyzABCDEFGHIJKLMNOPQRSTUVWXYZ0123456789", k=n)
+    for _ in range(n // 50):
+        plain[r.randrange(n)] = r.choice(ESC_SPECIAL)
+    return bytes(plain)
+
+
+def gen_ladder_records(tier, seed, shard, nshards):
+    """Length ladder for every encoder / decoder / escaper; record i of the whole ladder goes to shard i % nshards."""
+    quick = tier == "quick"
+    i = 0
+    for n in ladder_sizes(tier):
+        big = n > 65538
+        plans = []
+        for flag in (0, 1):
+            for style in (("uniform",) if big and quick else ("uniform", "sextet")):
+                plans.append((ENC, flag, n, style))
+        plans.append((ROT, 0, n, "mixed" if not big else "sparse"))
+        if not big:
+            plans.append((ROT, 0, n, "uniform"))
+        for op, flag in ((URL, 0), (URL, 1), (CTRL, 0), (CTRL, 1), (QUOTES, 0)):
+            styles = ("sparse",) if big and quick else ("sparse", "mixed") if big else ("verbatim", "escaped", "mixed")
+            for style in styles:
+                plans.append((op, flag, n, style))
+        # decoder ladder: ENCODED lengths next to n (multiples of 4), all three padding shapes, plus corrupted copies
+        for L in sorted({((n + 3) // 4) * 4} if big else {(n // 4) * 4, ((n + 3) // 4) * 4}):
+            if L == 0:
+                continue
+            for flag in (0, 1):
+                plans.append((DEC, flag, L, "valid"))
+                plans.append((DEC, flag, L, "corrupt"))
+        for op, flag, size, style in plans:
+            mine = i % nshards == shard
+            i += 1
+            if not mine:
+                continue
+            r = random.Random("c11-ladder-%s-%d-%d-%d-%d-%s" % (tier, seed, op, flag, size, style))
+            if op == DEC:
+                raw = r.randbytes(size // 4 * 3 - r.randrange(3))
+                enc = ref_encode(raw, flag)
+                assert len(enc) == size
+                if style == "corrupt":
+                    # one character outside this alphabet, at a position next to a 4 KiB / 16 KiB boundary, the ends or random
+                    cands = [0, size - 1, size // 2, r.randrange(size)] + [b - 1 for b in (4096, 16384, 16385, 65536) if b < size]
+                    pos = r.choice(cands)
+                    bad = r.choice(b"!\x00\xff \n" + (b"+/" if flag == 1 else b"-_"))
+                    enc = enc[:pos] + bytes([bad]) + enc[pos + 1:]
+                yield _rec(DEC, flag, enc)
+            else:
+                yield _rec(op, flag, _ladder_bytes(r, size, style))
 
 
 def gen_shard_records(tier, seed, shard, nshards):
@@ -266,6 +352,9 @@ def gen_shard_records(tier, seed, shard, nshards):
         for i in range((10000 if quick else 100000) // nshards + 1):
             n = r.randint(3, 12) if r.random() < 0.6 else r.randint(13, 300)
             yield _rec(op, flag, _rand_bytes(r, n, 2 if i % 4 else 0))
+
+    # ---- length ladder (sizes around 2^k and 3*2^k up to 1 MiB+1) for every encoder / decoder / escaper
+    yield from gen_ladder_records(tier, seed, shard, nshards)
 
     # ---- netloc: every port for each host; the port range is split over the shards
     hosts = list(HOSTS)
@@ -430,6 +519,8 @@ def judge_shard(job):
                                       "base64_decode(base64_encode(x)) != x",
                                       "alphabet=%s overload=%s x=%s decode-outcome=%s %s" % (an, how, _show(x), STATUS.get(st), _show(out)))
                 res.cls("b64enc:%s:rem%d:%s" % (an, n % 3, "len0-3" if n <= 3 else "len4-200" if n <= 200 else "len201+"))
+                if n >= 1024:
+                    res.cls("big:b64enc:%s:%s" % (an, _sizeclass(n)))
                 if flag == 2:
                     res.cls("b64enc:explicit-DEFAULT_ALPHABET-pointer")
                 if len(res.samples) < 2 and n >= 5:
@@ -439,6 +530,8 @@ def judge_shard(job):
                 st2, out2 = obs.field()
                 judge_decode(res, x, flag, st, out, "ptr")
                 judge_decode(res, x, flag, st2, out2, "string")
+                if n >= 1024:
+                    res.cls("big:b64dec:%s:%s:%s" % (alpha_name(flag), "returned" if st == 0 else "rejected", _sizeclass(n)))
             elif op == DECENUM:
                 nsym = x[0]
                 syms = x[1:1 + nsym]
@@ -478,7 +571,9 @@ def judge_shard(job):
                 if st != 0:
                     res.violation("rot13:throws", "rot13 threw", "input=%s outcome=%s %s" % (_show(x), STATUS.get(st), _show(y)))
                 else:
-                    if len(y) != len(x):
+                    if y == want:
+                        pass                # equal to the reference table output: length and "only letters change" hold too
+                    elif len(y) != len(x):
                         res.violation("rot13:length", "rot13 changed the length", "input=%s output=%s" % (_show(x), _show(y)))
                     else:
                         for a, b in zip(x, y):
@@ -491,8 +586,10 @@ def judge_shard(job):
                                           "input=%s output=%s expected=%s" % (_show(x), _show(y), _show(want)))
                     if st2 != 0 or z != x:
                         res.violation("rot13:involution", "rot13(rot13(x)) != x", "x=%s rot13(x)=%s rot13(rot13(x))=%s" % (_show(x), _show(y), _show(z)))
-                has_l = any(65 <= a <= 90 or 97 <= a <= 122 for a in x)
+                has_l = _HAS_LETTER.search(x) is not None
                 res.cls("rot13:%s:%s" % ("letters" if has_l else "no-letters", "len0-2" if n <= 2 else "len3+"))
+                if n >= 1024:
+                    res.cls("big:rot13:%s" % _sizeclass(n))
             elif op == URL:
                 st, out = obs.field()
                 res.evaluations += 1
@@ -508,6 +605,8 @@ def judge_shard(job):
                         res.violation("escape_url:roundtrip:%s" % mode, "urllib.parse.unquote_to_bytes(escape_url(x)) != x",
                                       "escape_slash=%d input=%s output=%s unquoted=%s" % (flag, _show(x), _show(out), _show(urllib.parse.unquote_to_bytes(bytes(out)))))
                 res.cls("escape_url:%s:%s:%s" % (mode, "escaped" if out != x else "verbatim", "len0-2" if n <= 2 else "len3+"))
+                if n >= 1024:
+                    res.cls("big:escape_url:%s:%s" % (mode, _sizeclass(n)))
             elif op == CTRL:
                 st, out = obs.field()
                 res.evaluations += 1
@@ -524,6 +623,8 @@ def judge_shard(job):
                         res.violation("escape_controls:roundtrip:%s" % mode, "independent unescaper(escape_controls(x)) != x",
                                       "escape_non_ascii=%d input=%s output=%s unescaped=%s" % (flag, _show(x), _show(out), _show(back)))
                 res.cls("escape_controls:%s:%s:%s" % (mode, "escaped" if out != x else "verbatim", "len0-2" if n <= 2 else "len3+"))
+                if n >= 1024:
+                    res.cls("big:escape_controls:%s:%s" % (mode, _sizeclass(n)))
                 if len(res.samples) < 3 and n >= 4 and out != x:
                     res.samples.append("escape_controls(%s, %d) == %r, unescapes back" % (x[:30].hex(), flag, bytes(out[:80])))
             elif op == QUOTES:
@@ -539,6 +640,8 @@ def judge_shard(job):
                         res.violation("escape_quotes:non-printable", "escape_quotes output contains a byte outside 0x20..0x7E",
                                       "input=%s output=%s" % (_show(x), _show(out)))
                 res.cls("escape_quotes:%s:%s" % ("escaped" if out != x else "verbatim", "len0-2" if n <= 2 else "len3+"))
+                if n >= 1024:
+                    res.cls("big:escape_quotes:%s" % _sizeclass(n))
             elif op == NETLOC:
                 pass
             else:
@@ -608,7 +711,6 @@ def stage(ctx, st):
 # concurrency stages
 
 MT_SHARDS = {"asan": 4, "tsan": 2}
-_ALL_ESCAPED = bytes(c for c in range(256) if (c < 0x20 and c not in (7, 8, 9, 10, 11, 12, 13)) or c >= 0x7F)
 
 
 def gen_mt_records(tier, seed, shard, variant):
